@@ -36,6 +36,7 @@ E(i) == S(i) @@ [st |-> St(i)]
 Viol(prop, name, detail) == PrintT(<<"VIOL", prop, name, Traces[tid].id, l + 1, detail>>)
 Drift(name, detail) == PrintT(<<"DRIFT", name, Traces[tid].id, l + 1, detail>>)
 Ck(prop, name, cond, detail) == IF cond THEN TRUE ELSE Viol(prop, name, detail)
+Inexact(rb, f) == f \in DOMAIN rb /\ rb[f]     \* flags of the projection: value not representable in cents
 
 DiffRec(a, b) == {f \in DOMAIN a \cup DOMAIN b : ~(f \in DOMAIN a /\ f \in DOMAIN b /\ a[f] = b[f])}
 DiffMap(a, b) ==
@@ -210,8 +211,14 @@ MwConforms(pre, e) ==
        ELSE \A g \in MatchGroups(pre, mid, e.a.iso) :
               LET labs == SortOrders(pre.ord, g)
                   res == FoldPassive(pre.ord, {}, labs, tr, e.a.book, e.a.book.pt, e.a.minbsp)
+                  \* fractions of a penny (odd reported volumes) make the runner's pass irreproducible in pence
+                  halfpenny(sk) == \E x \in g : pre.ord[x].selk = sk /\
+                                      (x \in SeqToSet(e.a.piqhalf) \/ (sk \in DOMAIN tr /\ TradedTie(pre.ord[x], tr[sk])))
               IN \A o \in g :
                    IF TouchedByRemoval(pre, e, o) \/ ~(pre.ord[o].selk \in DOMAIN e.a.book.r)
+                      \/ halfpenny(pre.ord[o].selk)
+                      \* a recorded starting price that is not a whole number of cents: the SP fill is outside pence arithmetic
+                      \/ (~pre.ord[o].bspd /\ e.a.book.bsprec /\ TakesSp(pre.ord[o]) /\ Inexact(e.a.book.r[pre.ord[o].selk], "spx"))
                       \/ e.a.book.r[pre.ord[o].selk].status # "ACTIVE"
                       \/ (pre.ord[o].side = "LAY" /\ ~pre.ord[o].bspd /\ e.a.book.bsprec /\ TakesSp(pre.ord[o])
                           /\ SpTie(pre.ord[o], e.a.book.r[pre.ord[o].selk].sp))
@@ -314,21 +321,25 @@ P_C06(pre, e) ==
           IN /\ \A o \in Rs : Ck("C06", "AtOrThroughLimit",
                                   fill(o) = 0 \/ eligvol2(o, d) > 0, <<o, fill(o)>>)
              \* no overfill: the group never takes more than half the eligible traded volume
+             \* (each fill is rounded to the penny: an odd reported amount may be rounded up by half a penny per level)
              /\ Ck("C06", "NoOverfill",
                    2 * SumOver(Rs, fill)
-                     <= SumOver({p \in DOMAIN d : \E o \in filled : Eligible(pre.ord[o], p)}, LAMBDA p : d[p]),
+                     <= SumOver({p \in DOMAIN d : \E o \in filled : Eligible(pre.ord[o], p)}, LAMBDA p : d[p])
+                        + SumOver(filled, LAMBDA o : OddLevels(pre.ord[o], d)),
                    <<sk, [o \in filled |-> fill(o)], d>>)
              /\ \A o0 \in filled :     \* per threshold and side
                    LET same == {o \in Rs : pre.ord[o].side = pre.ord[o0].side
                                            /\ Eligible(pre.ord[o0], pre.ord[o].price)}   \* priced at least as well as o0
                    IN Ck("C06", "NoOverfillThreshold",
-                         2 * SumOver({o \in same : TRUE}, fill) <= eligvol2(o0, d), <<sk, o0>>)
+                         2 * SumOver({o \in same : TRUE}, fill) <= eligvol2(o0, d) + SumOver(same, LAMBDA o : OddLevels(pre.ord[o], d)), <<sk, o0>>)
              \* a lone resting order gets exactly the volume beyond its queue position
              /\ (Cardinality({o \in g : pre.ord[o].selk = sk}) = 1 =>
                    \A o \in Rs :
                       LET want2 == eligvol2(o, d) - 2 * pre.ord[o].piq
+                          exact == Min(Rem(pre.ord[o]), IF want2 > 0 THEN RoundDiv(want2, 2) ELSE 0)
+                          tol == OddLevels(pre.ord[o], d) + (IF o \in SeqToSet(e.a.piqhalf) THEN 1 ELSE 0)
                       IN Ck("C06", "LoneExact",
-                            fill(o) = Min(Rem(pre.ord[o]), IF want2 > 0 THEN RoundDiv(want2, 2) ELSE 0),
+                            fill(o) >= exact - tol /\ fill(o) <= exact + tol,
                             <<o, fill(o), "eligible2", eligvol2(o, d), "piq", pre.ord[o].piq, "rem", Rem(pre.ord[o])>>))
              \* better priced orders of the same side are served first
              /\ \A o1 \in filled : \A o2 \in Rs :
@@ -359,7 +370,10 @@ P_C09(pre, e) ==
                          \A j \in DOMAIN pre.ord[o].frags :
                             Ck("C09", "ReducedOnce",
                                IF af >= 250
-                               THEN ReducedPriceOk(post.ord[o].frags[j][2], pre.ord[o].frags[j][2], af)
+                               THEN \/ ReducedPriceOk(post.ord[o].frags[j][2], pre.ord[o].frags[j][2], af)
+                                    \* a recorded factor with more than two decimals: one more cent of tolerance
+                                    \/ (sk \in DOMAIN e.a.book.r /\ Inexact(e.a.book.r[sk], "afx")
+                                        /\ \E d \in {-1, 1} : ReducedPriceOk(post.ord[o].frags[j][2] + d, pre.ord[o].frags[j][2], af))
                                ELSE post.ord[o].frags[j][2] = pre.ord[o].frags[j][2],
                                <<o, j, pre.ord[o].frags[j][2], post.ord[o].frags[j][2], af>>))
          \* no reduction without a new removal in this market
